@@ -51,7 +51,7 @@ func st(kind string) Step                       { return Step{Kind: kind} }
 func retry(envs ...Env) Step                    { return Step{Kind: "retry", Envs: envs} }
 func compact(rev uint64) Step                   { return Step{Kind: "compact", Rev: rev} }
 
-var drain = []Step{st("tick"), retry(), retry(), st("tick"), retry(), retry(), st("list")}
+var drain = []Step{st("tick"), retry(), retry(), st("tick"), retry(), retry(), st("probe")}
 
 func seq(parts ...[]Step) []Step {
 	var out []Step
@@ -128,12 +128,16 @@ type gen struct {
 	queue   int
 	lastIdle bool
 	everDeleted [nKeys]bool
+	// the key is deleted and a compaction has run since: the real store may have dropped its tombstone and index
+	// record (the model does not apply compaction's deletions), so creates of it carry no fault
+	compactedDeleted [nKeys]bool
+	engine string
 }
 
 func (g *gen) val() []byte {
 	g.valSeq++
-	if g.allowF2 && g.rnd.Chance(1, 4) {
-		return []byte{}
+	if g.allowF2 && g.engine != lib.EngTiKV && g.rnd.Chance(1, 4) {
+		return []byte{} // TiKV rejects empty values ("can not set nil value"): the write fails definitely there
 	}
 	return []byte(fmt.Sprintf("v%d", g.valSeq))
 }
@@ -188,7 +192,10 @@ func (g *gen) write(faultP, faultQ int) Step {
 		}
 		s = Step{Kind: "delete", Key: k, Rev: rev}
 	}
-	if s.Kind != "delete" && g.everDeleted[k] && g.lastRev[k] == 0 && g.rnd.Chance(1, 2) {
+	if s.Kind != "delete" && (s.Kind == "create" || s.Rev == 0) && g.compactedDeleted[k] {
+		return s
+	}
+	if s.Kind != "delete" && g.everDeleted[k] && g.lastRev[k] == 0 && !g.compactedDeleted[k] && g.rnd.Chance(1, 2) {
 		// re-create of a deleted key: the creator's second commit (CAS over the tombstone) is the interesting one
 		s.Rev = 0
 		g.faults++
@@ -218,6 +225,9 @@ func (g *gen) write(faultP, faultQ int) Step {
 	} else if g.rnd.Chance(1, 40) {
 		s.GetErr = true
 	}
+	if s.Kind != "delete" && (s.Kind == "create" || s.Rev == 0) && g.compactedDeleted[k] {
+		s.Envs, s.Hold = nil, false
+	}
 	return s
 }
 
@@ -243,9 +253,16 @@ func (g *gen) retryEnv(draining int) []Env {
 // learn updates the generator's belief about the keys from what the implementation answered.
 func (g *gen) learn(s Step, o Obs) {
 	switch s.Kind {
+	case "compact":
+		for k := range g.lastRev {
+			if g.lastRev[k] == 0 {
+				g.compactedDeleted[k] = true // deleted, never created, or unknown: no faulted create from now on
+			}
+		}
 	case "create", "update":
 		if o.Class == "ok" {
 			g.lastRev[s.Key] = o.HeaderRev
+			g.compactedDeleted[s.Key] = false
 		} else if o.Class == "cond" && o.Kv != nil {
 			g.lastRev[s.Key] = o.Kv.Rev
 		} else if o.Class == "uncertain" && len(s.Envs) > 0 && s.Envs[len(s.Envs)-1].Applied && g.rnd.Bool() {
@@ -285,7 +302,7 @@ func (g *gen) learn(s Step, o Obs) {
 
 // generate runs one random case on runner r, producing the script as it goes.
 func generate(rnd *lib.Rand, r *Runner) ([]Step, Result) {
-	g := &gen{rnd: rnd, r: r, allowF1: rnd.Chance(1, 8), allowF2: rnd.Chance(1, 14)}
+	g := &gen{rnd: rnd, r: r, allowF1: rnd.Chance(1, 8), allowF2: rnd.Chance(1, 14), engine: r.eng}
 	t0 := time.Now()
 	res := Result{}
 	var script []Step
@@ -375,7 +392,7 @@ func generate(rnd *lib.Rand, r *Runner) ([]Step, Result) {
 	}
 	if r.failure == "" {
 		do(retry())
-		do(st("list"))
+		r.Probe(do)
 	}
 	res.Tainted = r.tainted
 	res.Failure = r.failure
@@ -548,7 +565,7 @@ func runPlan(p Plan, scratch string) childOut {
 			if script == nil {
 				script = p.Script
 			}
-			res = r.Run(script)
+			script, res = r.Run(script)
 		}
 		r.Close()
 		out.Retries = attempt
@@ -703,6 +720,9 @@ func plans(seed uint64, tier string) []Plan {
 		base := corpus()
 		for _, e := range []string{lib.EngBadger, lib.EngTiKV} {
 			for _, p := range base {
+				if e == lib.EngTiKV && p.Kind == "corpus/F2-empty-value-landed" {
+					continue // TiKV rejects empty values
+				}
 				p.Engine = e
 				p.Kind = p.Kind + "@" + e
 				ps = append(ps, p)
